@@ -106,7 +106,7 @@ func quoteAARE(path string) string {
 		}
 		path = escaped.String()
 	}
-	if strings.ContainsAny(path, " \t!") && !strings.HasPrefix(path, "\"") {
+	if strings.ContainsAny(path, " \t!,") && !strings.HasPrefix(path, "\"") { // (a comma ends a bare word)
 		return "\"" + path + "\""
 	}
 	return path
@@ -126,7 +126,7 @@ func newFileFromLog(log map[string]string) Rule {
 		Owner:     IsOwner(log),
 		Path:      quoteAARE(log["name"]),
 		Access:    accesses,
-		Target:    log["target"],
+		Target:    quoteAARE(log["target"]),
 	}
 }
 
